@@ -63,14 +63,34 @@ RECV_KINDS = [
 ]
 
 
+_DECODER_SUB = {}
+
+
+def decoder_subcode(kind):
+    """the subcode the OPEN decoder raises for this malformed OPEN (the event `OpenBad x` carries the decoder's
+    subcode; whether it is the RFC one is judged by rfc_answer, not here)"""
+    if kind not in _DECODER_SUB:
+        from harness import hpeer
+        from exabgp.bgp.message import Message, Notify
+        from exabgp.bgp.message.direction import Direction
+        from exabgp.bgp.message.open.capability.negotiated import Negotiated
+        from exabgp.bgp.neighbor import Neighbor
+
+        raw = hpeer.wire(kind)
+        try:
+            Message.unpack(raw[18], raw[19:], Negotiated.make_negotiated(Neighbor.EMPTY, Direction.IN))
+            _DECODER_SUB[kind] = None
+        except Notify as n:
+            _DECODER_SUB[kind] = int(n.subcode)
+    return _DECODER_SUB[kind]
+
+
 def abstract_kind(kind, st):
     """concrete kind consumed in FSM state st -> kind code of the model"""
     if kind in ('OpenOk', 'OpenOkLow'):
         return K_OPENOK
-    if kind == 'OpenBadVersion':
-        return k_openbad(1)
-    if kind == 'OpenBadParam':
-        return k_openbad(0)  # the decoder raises 2/0 (RFC 4271 s6.2 asks for 2/4: observation, C07's domain)
+    if kind in ('OpenBadVersion', 'OpenBadParam'):
+        return k_openbad(decoder_subcode(kind))  # refused by the OPEN decoder itself, in every state
     if kind in ('OpenBadAs', 'OpenBadId', 'OpenBadHold'):
         # checked by Negotiated.validate, i.e. only for the OPEN awaited in OPENSENT
         return k_openbad({'OpenBadAs': 2, 'OpenBadId': 3, 'OpenBadHold': 6}[kind]) if st == 8 else K_OPENOK
@@ -114,7 +134,7 @@ def rfc_answer(kind, st):
         return {(1, 3)}
     own = {
         'OpenBadVersion': (2, 1), 'OpenBadAs': (2, 2), 'OpenBadId': (2, 3), 'OpenBadHold': (2, 6),
-        'OpenBadParam': (2, None),  # property text: OPEN errors 2/x (RFC: 2/4)
+        'OpenBadParam': (2, 4),  # RFC 4271 s6.2 Unsupported Optional Parameter
         'UpdateBadAttrLen': (3, 1), 'UpdateBadWdLen': (3, 1), 'UpdateBadNlri': (3, 10),
         'RefreshBadSubtype': (7, None),
     }.get(kind)
